@@ -124,7 +124,16 @@ pub fn prepare_write(item: &Item) -> io::Result<Prepared> {
             }
             Model::FastqFai(v)
         }
-        Kind::Crai => Model::Crai(cram::crai::io::Reader::new(&item.bytes[..]).read_index()?),
+        Kind::Crai => {
+            // record-wise: `read_index()` fails on more than one record on the pinned tree
+            let mut r = cram::crai::io::Reader::new(&item.bytes[..]);
+            let mut v = Vec::new();
+            let mut rec = cram::crai::Record::default();
+            while r.read_record(&mut rec)? != 0 {
+                v.push(rec.clone());
+            }
+            Model::Crai(v)
+        }
     };
     Ok(Prepared {
         kind: item.kind,
